@@ -10,7 +10,6 @@ import "testing"
 // expectation, or naga defect (then recorded in nagaCase.defect and in the
 // session report).
 
-
 func TestNagaHLSLIntegers(t *testing.T) {
 	runNagaHLSLCases(t, []nagaCase{
 		{
